@@ -1,6 +1,6 @@
 def install(world):
-    from . import tracker
-    for mod in (tracker,):
+    from . import tracker, dest
+    for mod in (tracker, dest):
         for c in mod.CONTRACTS:
             world.contracts[c.fq] = c
             if c.modular:
